@@ -460,7 +460,7 @@ func (p *ProtocolGraphQLTransportWSHandler) handleInit(ctx context.Context, payl
 	}
 
 	initCtx := ctx
-	if p.initFunc != nil && len(payload) > 0 {
+	if p.initFunc != nil {
 		// check initial payload to see whether to accept the websocket connection
 		var err error
 		if initCtx, err = p.initFunc(ctx, payload); err != nil {
